@@ -605,6 +605,34 @@ fn run(ctx: &mut Ctx) {
             ctx.count("builds in run sequences across the map epochs");
         }
     });
+    // ---- wire waveforms of 4 100..8 300 samples whose footer says the signal was last over threshold near sample 4 096
+    // (keep_last 2 040..2 090, beyond 11 bits): the packet is well formed, the event must build with the right slots
+    ctx.cases("long-wires", 16, |ctx, i, rng| {
+        let run = [u32::MAX, 11500][(i % 2) as usize];
+        get(run, &mut cache);
+        let (cal, inv) = cache.get(&run).unwrap();
+        let mut wires = BTreeMap::new();
+        let mut banks: Banks = Vec::new();
+        for k in 0..2usize {
+            let w = (i as usize * 13 + k * 50) % 256;
+            if cal.wire_need(w, 5000) != Need::Available {
+                continue;
+            }
+            let kl = 2040 + rng.below(51) as u16;
+            let n = (2 * kl as usize - 3) + rng.usize(100);
+            let raw: Vec<i16> = (0..n).map(|_| 3000 + (rng.gauss() * 20.0) as i16).collect();
+            let (name, mac, ch) = &inv.wire[w];
+            let mut a = crate::enc::Adc::simple(*mac, *ch, raw.clone());
+            a.keep_bit = true;
+            a.keep_last = kl;
+            banks.push((format!("C{}{}", name, std::char::from_digit(*ch as u32, 32).unwrap().to_ascii_uppercase()), a.encode()));
+            wires.insert(w, raw);
+        }
+        banks.push(event::trg_bank(4));
+        let ev = Ev { wires, suppressed: vec![], pads: BTreeMap::new(), ts: 4 };
+        check_event(ctx, cal, &ev, &banks);
+        ctx.count("events with wire waveforms of more than 4 096 samples");
+    });
     // ---- events of 8 different run numbers (every map / calibration epoch) built on 8 threads at once, over and over:
     // the slots of each must equal, bit for bit, those of the same event built alone beforehand (which the stages above
     // compare with the oracle)
